@@ -14,6 +14,7 @@ class Slice:
         self.consts = set()      # constant descriptions
         self.roots = set()       # unresolved: ("param", body, n) / ("upvar", body, name) / ("unknown", ..)
         self.sites = set()       # (body, bb) visited call sites
+        self.ops = set()         # binary / unary operators and casts on the way ("Add", "cast:i32->u16", ..)
 
     def update(self, other):
         self.fields |= other.fields
@@ -21,6 +22,7 @@ class Slice:
         self.consts |= other.consts
         self.roots |= other.roots
         self.sites |= other.sites
+        self.ops |= other.ops
 
     def reads(self, cell):
         return cell in self.fields
@@ -45,6 +47,61 @@ class Slicer:
         res = Slice()
         self._visit(body_id, x, env or {}, res, set(), 0)
         return res
+
+    def of_resolved(self, body_id, x, rounds=4):
+        """like `of`, then resolves captured variables through the enclosing body and parameters through all
+        call sites of the function (union over callers), a few levels up"""
+        res = self.of(body_id, x)
+        for _ in range(rounds):
+            pending = [r for r in res.roots if r[0] in ("upvar", "param")]
+            if not pending:
+                break
+            progressed = False
+            for r in pending:
+                extra = self._resolve_root(r)
+                if extra is not None:
+                    res.roots.discard(r)
+                    res.update(extra)
+                    progressed = True
+            if not progressed:
+                break
+        return res
+
+    def _resolve_root(self, r):
+        prog = self.prog
+        kind, bid, what = r
+        b = prog.facts.body(bid)
+        if b is None:
+            return None
+        if kind == "upvar":
+            if not b.parent:
+                return None
+            pid = prog.qual(b, b.parent)
+            pi = prog.info(pid)
+            if pi is None:
+                return None
+            for blk in pi.body.blocks:
+                for st in blk.stmts:
+                    if st.k == "assign" and st.rv.k == "agg" and st.rv.j.get("ak") in ("closure", "coroutine") and prog.qual(pi.body, st.rv.j["def"]) == bid:
+                        names = st.rv.j.get("fields", [])
+                        if what in names:
+                            return self.of(pid, st.rv.ops[names.index(what)])
+            return None
+        if kind == "param":
+            if b.kind == "Closure":
+                return None
+            out = None
+            for cid, cb in prog.facts.bodies.items():
+                ci = prog.info(cid)
+                for cbb, t in ci.calls(lambda c: prog.qual(cb, c.target) == bid):
+                    if what - 1 < len(t.args):
+                        s = self.of(cid, t.args[what - 1])
+                        if out is None:
+                            out = s
+                        else:
+                            out.update(s)
+            return out
+        return None
 
     # ------------------------------------------------------------------
     def _visit(self, body_id, x, env, res, seen, depth):
@@ -128,8 +185,10 @@ class Slicer:
                     self._visit(body_id, rv.place, env, res, seen, depth)
                 if rv.k == "agg" and rv.j["ak"] in ("closure", "coroutine"):
                     self._enter_closure(body_id, rv, env, res, seen, depth)
-                if rv.k == "bin" or rv.k == "un" or rv.k == "cast":
-                    pass
+                if rv.k == "bin" or rv.k == "un":
+                    res.ops.add(rv.j["op"])
+                elif rv.k == "cast" and rv.j["ck"] == "IntToInt":
+                    res.ops.add("cast:%s->%s" % (body.ty(rv.j["from"]), body.ty(rv.j["to"])))
             else:
                 t = body.blocks[bb].term
                 if t.k == "call":
